@@ -6,8 +6,8 @@ Tie: (C) random and enumerated histories are run through the real code path (vir
 them, `await port.set_attr('expression', text)`, `port.remove()`), and every step's outcome and resulting
 `str(port.get_expression())` is compared with the Coq model (Model.step, vm_compute).
 Spec oracle: (a) Coq Spec (closes_cycle_b / acyclic_b, proved equivalent to the declarative definitions) applied to the
-observations; (b) a brute-force reachability test in this file over the implementation's own objects (`get_deps()` of every
-port's current expression), after every step.
+observations; (b) a brute-force reachability test in this file over the TEXT of the expressions the ports hold (every `$id`
+occurring in it; not get_deps(), not any walk of the code under test), after every step.
 """
 import asyncio
 import glob
@@ -35,11 +35,13 @@ TRUSTED_BASE = [
     'harness/translate/exprstore.py (counts the suspension points between `await check_loops(...)` and `self._expression = '
     'expression` in attr_set_expression, and the awaits of check_loops other than its own recursion)',
     'correspondence harness harness/props/c04.py: generator, the text <-> tree mapping of the generated fragment '
-    '(checked each step through str(port.get_expression())), the brute-force reachability oracle over Expression.get_deps()',
+    '(checked each step through str(port.get_expression())), the brute-force reachability oracle over the $id occurrences of the expression texts',
     'modelled, not verified: the expression parser (C03), object identity of ports = equality of ids in _ports_by_id, '
     'asyncio (check_loops never suspends on another task: its awaits are all on itself)',
 ]
 ASSUMPTIONS = [
+    'the recursive walk of check_loops stays below the interpreter\'s recursion limit (on /repo: RecursionError beyond ~330 '
+    'chained ports with doubly nested calls, ~990 with plain references; see notes/C04.md); the model has no such limit',
     'the port registry only changes by load_one / remove; ids are never re-mapped while expressions refer to them '
     '(map_id applies to non-virtual ports at start-up only)',
     'concurrent requests: the event-loop model (Model.task_step) lets a request yield any number of times before its check and '
@@ -1215,7 +1217,10 @@ def check(ctx, res):
         'scenario blocks (hot-unplug with the graph changed meanwhile; crash between an unsaved clear and a saved assignment); '
         'port.reset() (+ restore of a configuration with the reverse dependency direction), enable()/disable() with a scripted '
         'driver latency, sequential and in flight during concurrent assignments; '
-        'every step through the real set_attr/remove/load_one/load/save/set_sequence. '
+        'every step through the real set_attr/remove/load_one/load/save/set_sequence. Expressions over the whole function '
+        'registry of the tree (time-processing and date functions with port arguments at any depth); the reads relation of '
+        'the implementation side is taken from the expression TEXT (every $id), not from get_deps(). Plus: for every function '
+        'and argument position a two-port cycle attempt through it; chains/rings of 17, 24, 40, 64, 200 ports. '
         'distinct = distinct histories; non-trivial = contains a circular-dependency rejection and an accepted assignment of a '
         'function call reading another port')
     I = impl()
